@@ -374,11 +374,13 @@ func CreateDB(dbName string) error {
 	fs.nextFreeOffset = pageSize
 
 	if err := fs.save(); err != nil {
+		fs.abandon()
 		return err
 	}
 
 	wal, err := newWal(dbName, true)
 	if err != nil {
+		fs.abandon()
 		return err
 	}
 
